@@ -74,6 +74,28 @@ class Prop:
                 self.check(ctx, ch, o)
             ctx.count('exhaustive_len_%d' % n, len(lines))
         ctx.dist['exhaustive_up_to_len'] = N
+        # long lines (tag-blocked sentences exceed 82 bytes; nothing limits the length of a line): every single
+        # cut position, a few fixed chunk sizes, random cuts
+        rng0 = ctx.rng('long')
+        long_lines = [b'x' * n + t for n in (81, 82, 83, 120, 300, 1000) for t in (b'\n', b'\r\n')]
+        long_lines += [b'\\g:1-2-73874,n:157036,s:r003669945,c:1241544035*4A\\!AIVDM,1,1,,B,15N4cJ`005Jrek0H@9n`DW5608EP,0*13\r\n',
+                       b'\\s:station-with-a-long-name,c:1671533231,t:some free text that makes the block long*55\\'
+                       b'!AIVDM,2,1,3,A,55?MbV02;H;s<HtKR20EHE:0@T4@Dn2222222216L961O5Gf0NSQEp6ClRp8,0*1C\n']
+        lines, meta = [], []
+        for L in long_lines:
+            stream = b'ab\n' + L + b'cd\n'
+            cuts_list = [[c] for c in range(1, len(stream), 1 if len(stream) < 400 else 37)]
+            cuts_list += [list(range(k, len(stream), k)) for k in (1, 7, 24, 40, 64, 90)]
+            cuts_list += [sorted(set(rng0.sample(range(1, len(stream)), 3))) for _ in range(10)]
+            for cuts in cuts_list:
+                pts = [0] + cuts + [len(stream)]
+                ch = [stream[a:b] for a, b in zip(pts, pts[1:])]
+                lines.append('sock ' + ' '.join(c.hex() for c in ch))
+                meta.append(ch)
+        outs = ctx.corr(lines, impl.step, 'sock', nontrivial=lambda l, o: l.count(' ') > 1 and o != '[]')
+        for ch, o in zip(meta, outs):
+            self.check(ctx, ch, o)
+        ctx.count('long_line_cases', len(lines))
         # AIS streams through the whole socket front-end
         rng = ctx.rng('ais')
         base = nmea_cases.base_sentences(rng)
